@@ -256,6 +256,12 @@ void vp_c16_concat(char *out, char *a, uint16_t ch, char *b) { QAD *A = QSD(a), 
 /* exactly n symbolic bytes (concrete length keeps every later offset concrete); ascii: all < 0x80 and != 0 */
 void vp_c16_bytes_exact(char *out, uint32_t n, uint8_t ascii) { ASSERT(n <= 8, "symbolic bytes bound"); QAD *d = qb_new(n, n); for (uint32_t i = 0; i < 8; i++) { if (i >= n) break; uint8_t c = vp_u8(); if (ascii) ASSUME(c < 0x80 && c != 0); C16_BD(d)[i] = c; } C16_BD(d)[n] = 0; QSD(out) = d; }
 
+
+/* QStringBuilder pieces: QConcatenable<QString>::appendTo is a memcpy of a.size() units (cbmc library memcpy with a symbolic size is
+   a performance killer): same copy as a bounded loop */
+void _ZN13QConcatenableI7QStringE8appendToERKS0_RP5QChar(char *a, char *out) { QAD *d = QSD(a); uint16_t *o = *(uint16_t**)out; uint32_t n = d->f1;
+  for (uint32_t i = 0; i < QHINT16(d); i++) { if (i >= n) break; o[i] = QCH16(d)[i]; } *(uint16_t**)out = o + n; }
+
 /* ---- constant tables: a FRESH block per call whose content is selected by a (possibly symbolic) index ---- */
 #define C16_NAMELEN 36
 #define C16_NTAB 8
